@@ -314,7 +314,7 @@ pub fn proc_replay(prop: &str, seed: u64, run: u64, v: Violation, plan: ProcPlan
         seed,
         run,
         violation: v,
-        plan: crate::plan::SimPlan { jobs: vec![], faults: vec![], threads: vec![], schedule: vec![], sched_seed: None, switch_16: 0, clock: vec![], lib_pass: false, all_formats: false, realfs: false, env: vec![] },
+        plan: crate::plan::SimPlan { jobs: vec![], faults: vec![], threads: vec![], schedule: vec![], sched_seed: None, switch_16: 0, clock: vec![], lib_pass: false, all_formats: false, realfs: false, env: vec![], clock_tick_ns: 0 },
         c14: None,
         proc: Some(plan),
         minimised: false,
